@@ -228,7 +228,7 @@ def worker(case: Dict[str, Any]) -> CaseResult:
             violations.append(Violation(PROP, "module-loads", "authored order: %r" % errs[:2], fl, replay_case, mech="c08:module-loads"))
             return CaseResult("violated", [v.to_json() for v in violations], stats, {"features": fl})
         count("generated")
-        frag_mod = sys.modules.get("graphql_client.fragments")
+        frag_mod = sys.modules.get("graphql_client." + cfg_full.get("fragments_module_name", "fragments"))  # "the fragments module" is the one the configuration names
         mix_mod = sys.modules.get("graphql_client.mixins_mod")
         # ---- every qualifying fragment has its class, whatever other operations do with it
         needed = sorted({f for _, _, f, _ in obligations})
@@ -420,6 +420,9 @@ def run(tier: str, seed: int) -> int:
     r.floors = {"instance_checks": 100, "fragment_class_validates": 100, "permutations_loaded": 100, "mixin_base_checks": 30}
     n = 900 if tier == "thorough" else 90
     cases = [cw.make_case(seed, i, dirty=(["frag.many"] if i % 3 else []) + (["mixin.on_fragment_def"] if i % 2 else []), tier=tier) for i in range(n)]
+    for i, c in enumerate(cases):
+        if i % 5 == 2:
+            c["cfg"] = dict(c["cfg"], fragments_module_name=["shared_query", "parts", "Fragments2"][(i // 5) % 3])
 
     def on_result(case, res):
         r.add(case, res)
